@@ -18,10 +18,24 @@ Theorem C17_valid_edit_keeps_wf : forall tables st m d k,
 Proof. exact update_preserves_wf. Qed.
 Print Assumptions C17_valid_edit_keeps_wf.
 
+(* every valid edit (kept may also be a NEW name in mode 'group': it is appended as a new last group
+   first): either a warning and nothing changes, or the call completes on a well-formed order
+   whose groups are exactly `expected_abs` (reference model of C13) *)
+Theorem C17_valid_edit_effect : forall tables st m d k,
+  WF (st_order st) -> st_nan st <> VNaN -> valid_edit st m d k ->
+  (get_group (st_order st) (eff_d st d) = k /\
+   update tables st m d k = (after_nan_test st d, UWarn))
+  \/
+  (get_group (st_order st) (eff_d st d) <> k /\
+   exists g', WF g' /\ abs g' = expected_abs m (st_order st) (eff_d st d) k /\
+     update tables st m d k = (refresh tables (set_order (after_nan_test st d) g'), UDone)).
+Proof. exact update_valid. Qed.
+Print Assumptions C17_valid_edit_effect.
+
 (* mode 'group': the discarded group (or the new modality / the missing value) is prepended to the
    kept group, the discarded leader leaves the list, every other group is untouched *)
 Theorem C17_group_effect : forall tables st d k,
-  WF (st_order st) -> st_nan st <> VNaN -> valid_edit st MGroup d k ->
+  WF (st_order st) -> st_nan st <> VNaN -> valid_edit st MGroup d k -> In k (keys (st_order st)) ->
   let g := st_order st in
   let d' := eff_d st d in
   let g' := st_order (fst (update tables st MGroup d k)) in
@@ -71,10 +85,12 @@ Print Assumptions C17_every_history.
    group's label (C04 applied to the post-edit state) *)
 Theorem C17_transform_after_edit_qualitative : forall tables st d k x i v,
   WF (st_order st) -> nan_ok st -> st_kind st = Qual -> valid_edit st MGroup d k ->
+  In k (keys (st_order st)) ->
   get_group (st_order st) (eff_d st d) <> k ->
   let g := st_order st in
   let d' := eff_d st d in
   let st' := fst (update tables st MGroup d k) in
+  nan_is_last st' ->
   nth_error (keys (st_order st')) i = Some x ->
   In v (if val_eqb x k then (if mem d' (keys g) then get g d' else [d']) ++ get g k else get g x) ->
   v <> VNaN ->
@@ -103,7 +119,7 @@ Print Assumptions C17_quantitative_upward_merge.
 (* ... and transform is that lookup on the refreshed labels, after any completed call *)
 Theorem C17_transform_after_edit_quantitative : forall tables st m d k x l i,
   let st' := fst (update tables st m d k) in
-  snd (update tables st m d k) = UDone -> WF (st_order st') ->
+  snd (update tables st m d k) = UDone -> WF (st_order st') -> nan_is_last st' ->
   st_kind st = Quant -> nan_ok st -> sentinel st' -> is_num x = true ->
   first_leader x (quant_leaders st') = Some l ->
   nth_error (keys (st_order st')) i = Some l ->
@@ -148,6 +164,19 @@ Theorem C17_rejected_edit_can_break_refuted :
     transform_col st' [VNum 4] = InternalErr.
 Proof. exact rejected_edit_can_break. Qed.
 Print Assumptions C17_rejected_edit_can_break_refuted.
+
+(* O50 (repaired): grouping into a NEW name while '__NAN__' is its own group puts the new leader
+   AFTER '__NAN__'; labels follow their groups (before the repair: a,NEW -> '__NAN__', NaN -> NEW) *)
+Theorem C17_new_name_with_nan_group :
+  let st := refresh [] (mkState Qual (of_list [VStr "a"; VStr "b"; VStr "__NAN__"]) (VStr "__NAN__")
+                                (VStr "__OTHER__") true OStr []) in
+  let st' := fst (update [] st MGroup (VStr "a") (VStr "NEW")) in
+  valid_edit st MGroup (VStr "a") (VStr "NEW") /\
+  keys (st_order st') = [VStr "b"; VStr "__NAN__"; VStr "NEW"] /\
+  transform_cell st' (VStr "a") = Ok (OLab (LVal (VStr "NEW"))) /\
+  transform_cell st' VNaN = Ok (OLab (LVal (VStr "__NAN__"))).
+Proof. exact new_name_with_nan_group. Qed.
+Print Assumptions C17_new_name_with_nan_group.
 
 (* the decidable form of `valid_edit` / `valid_history` used for concrete histories is sound *)
 Theorem C17_valid_history_decidable_sound : forall tables es st,
